@@ -18,14 +18,14 @@ ID = "C03"
 CASES = {"quick": 3000, "thorough": 30000}
 FLOOR = {"quick": 2000, "thorough": 20000}
 FLOOR_COUNTERS = {
-    "quick": {"new_sample_pairs_compared": 5000, "other_units": 300, "more_than_4096_rows": 15, "caller_buffers_overwritten_after_fit": 300, "fits_through_fit_transform": 400, "configured_not_by_constructor": 400, "non_default_containers": 400, "route_pairs_compared": 2500, "captured_matrices": 3000, "arpack_fits": 500, "randomized_fits": 500},
-    "thorough": {"new_sample_pairs_compared": 60000, "other_units": 4000, "more_than_4096_rows": 200, "caller_buffers_overwritten_after_fit": 4000, "fits_through_fit_transform": 5000, "configured_not_by_constructor": 5000, "non_default_containers": 5000, "route_pairs_compared": 30000, "captured_matrices": 40000, "arpack_fits": 6000, "randomized_fits": 6000},
+    "quick": {"earlier_data_with_the_same_shape_means_and_norms": 700, "new_sample_pairs_compared": 5000, "other_units": 300, "more_than_4096_rows": 15, "caller_buffers_overwritten_after_fit": 300, "fits_through_fit_transform": 400, "configured_not_by_constructor": 400, "non_default_containers": 400, "route_pairs_compared": 2500, "captured_matrices": 3000, "arpack_fits": 500, "randomized_fits": 500},
+    "thorough": {"earlier_data_with_the_same_shape_means_and_norms": 7000, "new_sample_pairs_compared": 60000, "other_units": 4000, "more_than_4096_rows": 200, "caller_buffers_overwritten_after_fit": 4000, "fits_through_fit_transform": 5000, "configured_not_by_constructor": 5000, "non_default_containers": 5000, "route_pairs_compared": 30000, "captured_matrices": 40000, "arpack_fits": 6000, "randomized_fits": 6000},
 }
 RULE = (
     "case = centred X (tall/wide/square/rank-deficient/decaying spectrum), Y with 1-3 targets (1-D and 2-D), mixing in "
     "{0,.05,.5,.95,1}, k in [1, rank], regressor in {default Ridge, Ridge(alpha), LinearRegression(no intercept), "
     "precomputed Yhat with/without W}; fits: feature/full, sample/full, arpack and randomized in a random space; all routes "
-    "compared pairwise. non-trivial = eigen-gap guard passed and >= 3 routes compared; distinct by hash of data+config."
+    "compared pairwise; estimators with a past were fitted on a sibling table (same shape, column means and column norms). non-trivial = eigen-gap guard passed and >= 3 routes compared; distinct by hash of data+config."
 )
 ASSUMPTIONS = [
     "eigen-gap guard: relative gaps among lambda_1..lambda_{k+1} >= 1e-6 and lambda_k/lambda_1 >= 1e-8, else skipped (subspace not determined to rounding)",
